@@ -15,6 +15,8 @@ OptOk(e) == LET a == Abs(e.rust) IN
     /\ e.optional = (a.k = "opt" \/ e.default)
     /\ StripOpts(e.ty) = StripOpts(e.ty_plain)
     /\ (e.lang = "typescript" /\ a.k = "opt" /\ a.e.k = "opt" /\ e.pos \in {"field", "vfield"}) => e.ty.k = "opt"
+    \* ... and the other way round: a single Option is `?` alone - printed as `?` plus `| null` it could not be told from Option<Option<T>>
+    /\ (e.lang = "typescript" /\ a.k = "opt" /\ a.e.k # "opt" /\ e.pos \in {"field", "vfield"}) => e.ty.k # "opt"
 Ok(e) == e.pos \in {"alias", "const"} \/ OptOk(e)
 Init == i = 1 /\ bad = <<>>
 Next == /\ i <= Len(Rec)
